@@ -1,4 +1,5 @@
 import Proofs.ForPrefixes
+import Proofs.Resolve
 /-! C05 — webentity page sets. Proved so far: the answer is, prefix by prefix in the given order, the
     pages met by the webentity walk of that prefix with their current crawled marks; the crawled-only
     variant is exactly the filter by the mark; an unknown prefix is refused with the library's own
@@ -27,5 +28,25 @@ theorem C05_crawled_is_filter (s : State) (ps : List Bytes) :
 
 theorem C05_unknown_prefix (s : State) (ps : List Bytes) (e : Err) (h : s.webentityPages ps = .error e) :
     e = .traph ∧ ∃ p ∈ ps, s.lruNode (lruIter p) = none := forPrefixes_err s ps _ e h
+
+/-- PARTITION CORE: the walk started at a prefix node meets a block below it iff no cell on the way from
+    just below the prefix down to that block (inclusive) carries a webentity — i.e. iff the prefix is
+    the longest attached prefix of that block's LRU; the LRU it reports is the block's own -/
+theorem C05_walk_exact {s : State} {a : Nat} {l c r : T} (hr : Rep s (.node a l c r))
+    (hsz : (T.node a l c r).size ≤ s.trie.size) {lo hi : Option Stem} (hord : OrdT s (.node a l c r) lo hi)
+    (hnd : (T.node a l c r).addrs.Nodup) (startLru : Bytes) (b : Nat) (lru : Bytes) :
+    (b, lru) ∈ s.weDfs a startLru none ↔
+      (b = a ∧ lru = lruDirname startLru ++ s.stemAt a) ∨
+      ∃ q, q ≠ [] ∧ (q, b) ∈ c.entries s [] ∧ lru = lruDirname startLru ++ s.stemAt a ++ q.flatten ∧
+        (∀ k, 0 < k → k ≤ q.length → ∀ b', (q.take k, b') ∈ c.entries s [] → (s.cell b').we = 0) :=
+  weDfs_mem_iff hr hsz hord hnd startLru b lru
+
+/-- pages below a nested webentity's prefix are excluded from the enclosing one: a block is met iff the
+    resolution of its path below the start node is "none" -/
+theorem C05_nested_excluded {s : State} {a : Nat} {l c r : T} {lo hi : Option Stem}
+    (hord : OrdT s (.node a l c r) lo hi) (hnd : (T.node a l c r).addrs.Nodup) (lru0 : Bytes)
+    {q : LRU} {b : Nat} (hq : (q, b) ∈ c.entries s []) :
+    (∃ lru, (b, lru) ∈ (T.node a l c r).wePre s a lru0) ↔ c.resolveAlong s q 0 = 0 :=
+  C05_walk_is_resolution' hord hnd lru0 hq
 
 end Traph.Props
